@@ -14,6 +14,7 @@ from sim import simtasks
 
 NAME = "ctl"
 WALL_SPIN_S = 20.0
+PRECOMPUTE_WALL_S = 120.0     # generated jobs pre-schedule in milliseconds; two orders of magnitude of slack for a loaded machine
 
 
 class Violation(Exception):
@@ -362,7 +363,7 @@ def run(plan, ch, want_log=False):
     b = ModelBridge(ch, job, jp, env, knobs)
     from sim.kernel import SpinDetected, wall_alarm
     try:
-        with wall_alarm(WALL_SPIN_S):
+        with wall_alarm(PRECOMPUTE_WALL_S):
             pre = precompute(job)
     except SpinDetected:
         return dict(harness=NAME, viol=[dict(prop="C03", cls="spin", detail="scheduler.graph.precompute did not return", sig={})] +
